@@ -41,6 +41,7 @@ name is fused with `.`, `::`, `fn` or `type` in front of it or with the `=` of a
 def tokOK (t : GTok) : Bool :=
   match t.p with
   | .lit => litOK t.s && t.pre == "" && t.post == ""
+  | .root => t.s == "core" && t.pre == "::" && t.post == ""     -- absolute paths start at `::core`
   | .abs => t.pre == "::" && t.post == ""
   | .mem => ((t.pre == "." || t.pre == "::" || t.pre == "fn" || t.pre == "type") && t.post == "") || (t.pre == "" && t.post == "=")
   | _ => t.pre == "" && t.post == ""
@@ -74,11 +75,15 @@ theorem hyg_cons {t : GTok} {l : GToks} : Hyg (t :: l) ↔ tokOK t = true ∧ Hy
 @[simp] theorem hyg_gcons {t : GTok} {l : GToks} : Hyg (t ::: l) ↔ tokOK t = true ∧ Hyg l := hyg_cons
 theorem hyg_U (ts : Toks) : Hyg (U ts) := by
   intro t ht; simp only [U, List.mem_map] at ht; obtain ⟨s, _, rfl⟩ := ht; rfl
-theorem hyg_absPath (segs : List String) : Hyg (absPath segs) := by
-  intro t ht
-  simp only [absPath, List.mem_map] at ht
-  obtain ⟨s, _, rfl⟩ := ht
-  rfl
+theorem hyg_absPath (segs : List String) (h : segs.head? = some "core") : Hyg (absPath segs) := by
+  cases segs with
+  | nil => cases h
+  | cons r rest =>
+    simp only [List.head?_cons, Option.some.injEq] at h
+    subst h
+    intro t ht
+    simp only [absPath, List.mem_cons, List.mem_map] at ht
+    rcases ht with rfl | ⟨s, _, rfl⟩ <;> rfl
 theorem hyg_genAttr (xs : List String) : Hyg (genAttr xs) := by
   intro t ht
   simp only [genAttr, List.mem_cons, List.mem_append, List.mem_map, List.not_mem_nil, or_false] at ht
@@ -127,7 +132,12 @@ end DX
 
 namespace DX
 @[simp] theorem hyg_U' (ts : Toks) : Hyg (U ts) ↔ True := iff_true_intro (hyg_U ts)
-@[simp] theorem hyg_absPath' (segs : List String) : Hyg (absPath segs) ↔ True := iff_true_intro (hyg_absPath segs)
+@[simp] theorem hyg_absPath' (r : String) (rest : List String) : Hyg (absPath (r :: rest)) ↔ r = "core" := by
+  constructor
+  · intro h
+    have := h { s := r, p := .root, pre := "::" } (by simp [absPath])
+    simpa [tokOK] using this
+  · intro h; exact hyg_absPath _ (by simp [h])
 @[simp] theorem hyg_genAttr' (xs : List String) : Hyg (genAttr xs) ↔ True := iff_true_intro (hyg_genAttr xs)
 @[simp] theorem hyg_nil' : Hyg [] ↔ True := iff_true_intro Hyg.nil
 
@@ -434,8 +444,10 @@ theorem hyg_helperFnBlock (id : String) (hid : Reserved id) (generics : GToks) (
   have hidok : tokOK ((id : String) : GTok) = true := tokOK_lit _ (litOK_of_reserved id hid)
   hyg_simp [hg, hr, hb, hidok, hyg_sepBy ("," : GTok) _ (by decide) hp, hyg_sepBy ("," : GTok) _ (by decide) ha]
 
-theorem hyg_ufcs2 (path : List String) (a b : GToks) (ha : Hyg a) (hb : Hyg b) : Hyg (ufcs2 path a b) := by
-  hyg_simp [ufcs2, ha, hb]
+theorem hyg_ufcs2 (path : List String) (a b : GToks) (hp : path.head? = some "core") (ha : Hyg a) (hb : Hyg b) :
+    Hyg (ufcs2 path a b) := by
+  have := hyg_absPath path hp
+  hyg_simp [ufcs2, ha, hb, this]
 
 theorem hyg_list3 {a b c : GToks} (ha : Hyg a) (hb : Hyg b) (hc : Hyg c) : ∀ x ∈ [a, b, c], Hyg x := by
   intro x hx
@@ -459,8 +471,8 @@ theorem hyg_peExpr (k : SrcKind) (cf : CmpField) : Hyg (peExpr k cf) := by
       · hyg_simp []
       · hyg_simp [hyg_someEqual, hyg_orderingEqual]
       · exact hargs e
-  | key src t => exact hyg_ufcs2 _ _ _ (hyg_applyTemplate _ _ hs) (hyg_applyTemplate _ _ ho)
-  | dflt => exact hyg_ufcs2 _ _ _ hs ho
+  | key src t => exact hyg_ufcs2 _ _ _ rfl (hyg_applyTemplate _ _ hs) (hyg_applyTemplate _ _ ho)
+  | dflt => exact hyg_ufcs2 _ _ _ rfl hs ho
 
 theorem hyg_eqChecker (this : GToks) (h : Hyg this) : Hyg (eqChecker this) := by
   hyg_simp [eqChecker, h]
@@ -491,8 +503,8 @@ theorem hyg_poExpr0 (k : SrcKind) (cf : CmpField) : Hyg (poExpr0 k cf) := by
       · hyg_simp [hyg_optOrdering]
       · hyg_simp []
       · exact hargs e
-  | key src t => exact hyg_ufcs2 _ _ _ (hyg_applyTemplate _ _ hs) (hyg_applyTemplate _ _ ho)
-  | dflt => exact hyg_ufcs2 _ _ _ hs ho
+  | key src t => exact hyg_ufcs2 _ _ _ rfl (hyg_applyTemplate _ _ hs) (hyg_applyTemplate _ _ ho)
+  | dflt => exact hyg_ufcs2 _ _ _ rfl hs ho
 
 theorem hyg_poExpr (k : SrcKind) (cf : CmpField) : Hyg (poExpr k cf) := by
   unfold poExpr
@@ -511,8 +523,8 @@ theorem hyg_ordExpr0 (k : SrcKind) (cf : CmpField) : Hyg (ordExpr0 k cf) := by
     · hyg_simp [hyg_ordering]
     · hyg_simp []
     · apply hyg_list3 <;> hyg_simp [hs, ho]
-  | key src t => exact hyg_ufcs2 _ _ _ (hyg_applyTemplate _ _ hs) (hyg_applyTemplate _ _ ho)
-  | dflt => exact hyg_ufcs2 _ _ _ hs ho
+  | key src t => exact hyg_ufcs2 _ _ _ rfl (hyg_applyTemplate _ _ hs) (hyg_applyTemplate _ _ ho)
+  | dflt => exact hyg_ufcs2 _ _ _ rfl hs ho
 
 theorem hyg_ordExpr (k : SrcKind) (cf : CmpField) : Hyg (ordExpr k cf) := by
   unfold ordExpr
@@ -757,16 +769,22 @@ theorem derive_output_hygienic (item : Item) : ∀ seg ∈ expandDerive item, Hy
 
 /-- what `absPath` prints: `::` in front of every segment -/
 theorem absPath_strs (segs : List String) : (absPath segs).strs = segs.flatMap (fun s => ["::", s]) := by
-  induction segs with
+  cases segs with
   | nil => rfl
-  | cons x xs ih =>
-    simp only [absPath, GToks.strs, List.map_cons, List.flatMap_cons] at ih ⊢
-    rw [ih]
-    rfl
+  | cons r rest =>
+    have h : ∀ l : List String, GToks.strs (l.map fun s => ({ s, p := .abs, pre := "::" } : GTok)) = l.flatMap (fun s => ["::", s]) := by
+      intro l
+      induction l with
+      | nil => rfl
+      | cons x xs ih =>
+        simp only [GToks.strs, List.map_cons, List.flatMap_cons] at ih ⊢
+        rw [ih]; rfl
+    simp only [absPath, GToks.strs, List.flatMap_cons] at h ⊢
+    rw [h]; rfl
 
 /-- the first segment of every absolute path the templates write is `core` (so the path starts at the crate root
 `::core`, which no user-chosen name can shadow) — checked on the trait table and on the fixed paths -/
-theorem kind_paths_rooted (k : Kind) : ∃ rest, k.path = ({ s := "core", p := .abs, pre := "::" } : GTok) :: rest := by
+theorem kind_paths_rooted (k : Kind) : ∃ rest, k.path = ({ s := "core", p := .root, pre := "::" } : GTok) :: rest := by
   cases k <;> first
     | exact ⟨_, rfl⟩
     | (rename_i o; cases o <;> exact ⟨_, rfl⟩)
